@@ -93,8 +93,10 @@ func (r *Route) addTarget(service string, targetURL *url.URL, fixedWeight float6
 		}
 
 		if err = t.ProcessAccessRules(); err != nil {
-			log.Printf("[ERROR] failed to process access rules: %s",
-				err.Error())
+			log.Printf("[ERROR] failed to process access rules: %s. Denying all access to %s",
+				err.Error(), targetURL)
+			// fail closed: an allow list without blocks admits nobody
+			t.accessRules = map[string][]interface{}{ipAllowTag: nil}
 		}
 
 		t.AuthScheme = opts["auth"]
